@@ -118,11 +118,12 @@ def create_retry_strategy(
             )
         except OverflowError:
             # a float rate overflows long before the cap applies (2.0 ** 1024): the product is beyond
-            # the cap then - unless the initial delay is zero (the product stays zero) or the rate
-            # is negative (the product does not grow towards the cap)
+            # the cap then - unless the initial delay is zero (the product stays zero) or the
+            # product is negative (a negative rate with an odd exponent)
             base_delay = (
                 config.max_delay_seconds
-                if config.initial_delay_seconds > 0 and config.backoff_rate > 0
+                if config.initial_delay_seconds > 0
+                and (config.backoff_rate > 0 or (attempts_made - 1) % 2 == 0)
                 else 0
             )
         # Apply jitter to get final delay
